@@ -167,7 +167,10 @@ def run(ck):
         # ---- corpus of headers that need escaping / qualification care, over the three back-ends -------------
         for src in sorted((iglib.VERIF / "corpus" / "C03").glob("*.h")):
             shutil.copy(src, wd / src.name)
-            for opts in (["-c", "-fnames"], ["-python", "-fnames"], ["-python-native"], ["-c", "-fnames", "-promiscuous"]):
+            for opts in (["-c", "-fnames"], ["-python", "-fnames"], ["-python-native"], ["-c", "-fnames", "-promiscuous"], ["-c", "-fptrs"], ["-python", "-fptrs"],
+                         ["-c", "-fnames", "-unique-names"], ["-python", "-fnames", "-unique-names"], ["-c", "-fptrs", "-unique-names"]):
+                if src.name in ("array_member.h", "neg_templ.h") and ("-fptrs" in opts or "-unique-names" in opts):
+                    continue          # (the two known findings are tied to these headers under the four basic option sets)
                 oc = wd / ("corpus_%s_%s.cxx" % (src.stem, "_".join(o.strip("-") for o in opts)))
                 cmd = [str(bdir / "bin" / "interrogate"), "-D__cplusplus", "-oc", str(oc), "-od", str(wd / "corpus.in"), "-module", "m", "-library", "lc"] + opts + [src.name]
                 rc, so, se = iglib.sh(cmd, cwd=str(wd), timeout=120)
